@@ -70,6 +70,7 @@ def run(P, R, tier):
     _common.no_fastmath(P, R, 'C01.k', ['spatialpandas.geometry._algorithms.intersection', 'spatialpandas.geometry._algorithms.orientation'])
     orientation_table(P, R)
     box_edges(P, R, tier)
+    _common.nan_buffers(P, R, 'C01.l', ['spatialpandas.geometry.point'], floor=1)      # PointArray.x / .y: the coordinates compared with the box corners are float64
     _common.forward(P, R, 'C02', ['C02.c'], 'C01.o', 'a box with no edge crossing is decided by its corner lying inside the polygon (point_intersects_polygon): the crossing count obeys one half-open edge rule', floor=1)
 
 
